@@ -1,10 +1,10 @@
 #!/bin/sh
 # tools/seed_import.sh C03  -- import /tmp/wt/C03/_seed/{a,b} into /verif/seeded/C03-{a,b} and verify them myself:
 # demo exit 0 on clean copy, exit 1 with the patch, suite green with the patch.
-ID="$1"
+ID="$1"; SRC="${2:-/tmp/wt}"; TAG="${3:-}"
 for V in ${VARIANTS:-a b}; do
-  S="/tmp/wt/$ID/_seed/$V"; [ -f "$S/patch.diff" ] || { echo "$ID-$V: no patch"; continue; }
-  T="/verif/seeded/$ID-$V"; mkdir -p "$T"; cp "$S/patch.diff" "$S/demo.py" "$T/"; cp "$S/meta.json" "$T/meta.agent.json" 2>/dev/null
+  S="$SRC/$ID/_seed/$V"; [ -f "$S/patch.diff" ] || { echo "$ID-$V: no patch"; continue; }
+  T="/verif/seeded/$ID-$TAG$V"; mkdir -p "$T"; cp "$S/patch.diff" "$S/demo.py" "$T/"; cp "$S/meta.json" "$T/meta.agent.json" 2>/dev/null
   D="$(mktemp -d /tmp/hgseed.XXXXXX)"
   rsync -a --exclude .git --exclude __pycache__ --exclude .pytest_cache /repo/ "$D/"
   ( cd "$D" && PYTHONPATH="$D/src" /venv/bin/python "$T/demo.py" >/dev/null 2>&1 ); CLEAN=$?
@@ -18,6 +18,6 @@ for ts in ET.parse(sys.argv[1]).getroot().iter('testsuite'):
 P
 )
   rm -rf "$D"
-  echo "$ID-$V: demo clean=$CLEAN patched=$BROKEN suite: $SUITE"
+  echo "$ID-$TAG$V: demo clean=$CLEAN patched=$BROKEN suite: $SUITE"
   printf '{"demo_exit_clean": %s, "demo_exit_patched": %s, "suite_with_patch": "%s"}\n' "$CLEAN" "$BROKEN" "$SUITE" > "$T/verified.json"
 done
